@@ -85,6 +85,7 @@ class Engine:
         self.tokens: Dict[str, z3.ExprRef] = {}
         self.chars: Dict[str, z3.ExprRef] = {}
         self.path_notes: Dict[str, Any] = {}
+        self.known: Dict[int, Tuple[bool, Any]] = {}
 
     # ------------------------------------------------------------------ solver
     def check(self, *assumps) -> bool:
@@ -123,6 +124,20 @@ class Engine:
             if forced:
                 raise self._raise(Pruned())
             return False
+        cid = cond.get_id()
+        hit = self.known.get(cid)
+        if hit is not None:
+            # the same condition was already decided earlier on this path: implied, no query, no trail entry
+            if forced and not hit[0]:
+                raise self._raise(Pruned())
+            return hit[0]
+        choice = self._decide(cond, forced)
+        self.known[cid] = (choice, cond)
+        neg = z3.simplify(z3.Not(cond))
+        self.known[neg.get_id()] = (not choice, neg)
+        return choice
+
+    def _decide(self, cond, forced: bool) -> bool:
         i = len(self.trail)
         if i < len(self.plan):
             choice, has_alt = self.plan[i]
@@ -179,6 +194,7 @@ class Engine:
 
     # ----------------------------------------------------------------- explore
     def _reset_path(self):
+        self.known = {}
         self.trail = []
         self.abort = None
         self._fresh = 0
